@@ -433,7 +433,22 @@ class MatrixFam(Fam):
 
     def args(self, spec, data):
         L = lib()
-        return L["sp"].csr_matrix(L["np"].asarray(data, dtype=L["np"].float64).reshape(len(data), -1)), {}
+        np, sp = L["np"], L["sp"]
+        D = np.asarray(data, dtype=np.float64).reshape(len(data), -1)
+        storage = spec.get("storage", "csr")
+        if storage == "csc_unsorted":
+            A = sp.csc_matrix(D)
+            for j in range(A.shape[1]):
+                s_, e_ = A.indptr[j], A.indptr[j + 1]
+                A.indices[s_:e_] = A.indices[s_:e_][::-1].copy()
+                A.data[s_:e_] = A.data[s_:e_][::-1].copy()
+            A.has_sorted_indices = False
+            return A, {}
+        if storage == "csr_zeros":
+            mask = (D != 0) | (np.arange(D.size).reshape(D.shape) % 3 == 1)
+            r, c = np.nonzero(mask)
+            return sp.coo_matrix((D[r, c], (r, c)), shape=D.shape).tocsr(), {}
+        return sp.csr_matrix(D), {}
 
 
 class IWFam(MatrixFam):
